@@ -33,9 +33,16 @@ var (
 	started  = time.Now()
 )
 
+// violationPrinted: a VIOLATION line is already on stdout; later trouble must
+// not turn the run into "infrastructure" (exit 2).
+var violationPrinted bool
+
 func infra(format string, a ...any) {
 	fmt.Fprintf(os.Stderr, "INFRA: "+format+"\n", a...)
 	cleanup()
+	if violationPrinted {
+		os.Exit(1)
+	}
 	os.Exit(2)
 }
 
@@ -397,6 +404,7 @@ func runShardedTests(c *check, replay string) int {
 				fmt.Printf("KNOWN-FINDING: property=%s %s\n", c.id, k.What)
 				continue
 			}
+			violationPrinted = true
 			fmt.Printf("VIOLATION property=%s replay=%s\n", c.id, rp)
 			fmt.Println(indent(lastLines(o, 12)))
 			code = 1
@@ -456,6 +464,7 @@ func runShardedTests(c *check, replay string) int {
 		if b, err := os.ReadFile(v.Replay); err == nil {
 			os.WriteFile(dst, b, 0o644)
 		}
+		violationPrinted = true
 		fmt.Printf("VIOLATION property=%s replay=%s\n", c.id, dst)
 		fmt.Println(indent(v.Msg))
 		code = 1
@@ -501,8 +510,19 @@ func lastLines(s string, n int) string {
 	return strings.Join(ls, "\n")
 }
 
+// indent also bounds what is printed: long lines and long messages are cut
+// (the replay file holds the full case).
 func indent(s string) string {
-	return "    " + strings.ReplaceAll(s, "\n", "\n    ")
+	ls := strings.Split(s, "\n")
+	if len(ls) > 40 {
+		ls = append(ls[:40], "…")
+	}
+	for i, l := range ls {
+		if len(l) > 400 {
+			ls[i] = l[:400] + "…"
+		}
+	}
+	return "    " + strings.Join(ls, "\n    ")
 }
 
 func propListed(list, id string) bool {
